@@ -598,16 +598,27 @@ Proof.
   - apply finv_add_obs. auto.
 Qed.
 
-Lemma step_finv s o s' oc : finv s -> op_within F P Q o -> step E s o = (s', oc) -> finv s'.
+Lemma sf_write_stdout_rec s rec : same_files E s (fst (write_stdout_rec E s rec)).
 Proof.
-  intros Hi Hw. destruct o as [d ps|n|[n|]|c|n|c| |code| |n]; cbn [step].
-  - (* Print *)
+  unfold write_stdout_rec. destruct (e_mode E) eqn:Em; try apply sf_write_stdout.
+  destruct (cap <? scratch_size)%nat; [|apply sf_write_stdout].
+  apply (sf_trans _ _ (touch E s)); [apply sf_touch|].
+  set (s1 := touch E s).
+  assert (H : same_files E s1 (add_log s1 (EvWrite WStdout rec))) by (unfold same_files; cbn; auto).
+  eapply sf_trans; [exact H|].
+  destruct (write_chunks_buf _ _ _ _) as [[? ?] ?]. cbn [fst]. apply sf_fields; auto.
+Qed.
+
+Lemma step_print_finv s d ps wr s' oc : finv s ->
+  match d with DRedir RPipe c => P c | DRedir _ n => F n | _ => True end ->
+  (forall s1, same_files E s1 (fst (wr s1))) ->
+  step_print E s d ps wr = (s', oc) -> finv s'.
+Proof.
+  intros Hi Hw' Hwr. unfold step_print.
     destruct (get_output_stream E s d) as [s1 r] eqn:Eg.
-    assert (Hw' : match d with DRedir RPipe c => P c | DRedir _ n => F n | _ => True end).
-    { cbn [op_within] in Hw. destruct d as [| | |[| |] n]; auto. }
     destruct (get_output_stream_finv _ _ _ _ Hi Hw' Eg) as (Hi1 & Hopen).
     destruct r as [[|n]|]; [| |intros H; injection H as <- <-; auto].
-    + pose proof (sf_write_stdout E s1 ps) as Hsf. destruct (write_stdout E s1 ps) as [s2 [|]]; cbn [fst] in Hsf;
+    + pose proof (Hwr s1) as Hsf. destruct (wr s1) as [s2 [|]]; cbn [fst] in Hsf;
         intros H; injection H as <- <-; eapply finv_same; eauto.
     + destruct (alookup n (st_outs s1)) as [os|] eqn:El; [|intros H; injection H as <- <-; auto].
       set (w := match os_kind os with KFile => WFile n | KCmd => WCmd n end).
@@ -621,6 +632,15 @@ Proof.
       assert (Hwt : wdest_target E w = stream_target E n os).
       { subst w. unfold stream_target. destruct (os_kind os); auto. }
       rewrite Hwt. destruct (tgt_is _ t); [auto|rewrite app_nil_r; auto].
+Qed.
+
+Lemma step_finv s o s' oc : finv s -> op_within F P Q o -> step E s o = (s', oc) -> finv s'.
+Proof.
+  intros Hi Hw. destruct o as [d ps|n|[n|]|c|n|c| |code| |n|d rec]; cbn [step].
+  - (* Print *)
+    assert (Hw' : match d with DRedir RPipe c => P c | DRedir _ n => F n | _ => True end)
+      by (cbn [op_within] in Hw; destruct d as [| | |[| |] n]; auto).
+    apply (step_print_finv s d ps _ s' oc Hi Hw'). intros s1. apply sf_write_stdout.
   - (* Close *)
     destruct (alookup n (st_ins s)) as [i|] eqn:Ei.
     + destruct (if is_cmd i then _ else _) as [code err]. intros H; injection H as <- <-.
@@ -667,6 +687,10 @@ Proof.
     destruct (negb (amem n (st_ins s)) && negb (amem n (st_fs s))).
     + intros H; injection H as <- <-. apply (finv_same _ _ (sf_if_unmod E true _)); auto.
     + apply getline_file_finv. apply finv_add_synced; auto.
+  - (* print in CSV/TSV mode *)
+    assert (Hw' : match d with DRedir RPipe c => P c | DRedir _ n => F n | _ => True end)
+      by (cbn [op_within] in Hw; destruct d as [| | |[| |] n]; auto).
+    apply (step_print_finv s d [rec] _ s' oc Hi Hw'). intros s1. apply sf_write_stdout_rec.
 Qed.
 
 Lemma exec_finv ops : forall s s' r, finv s -> Forall (op_within F P Q) ops -> exec E s ops = (s', r) -> finv s'.
